@@ -51,6 +51,9 @@ func (fm *fusionModel) withVia(l *lexd, via string) *lexd {
 
 var sepLex = &lexd{key: "␣", sep: true}
 
+// litSepLex: whitespace that is part of a constant text a printer writes (" else "), as opposed to layout
+var litSepLex = &lexd{key: "␣(literal)", sep: true}
+
 type fkind int
 
 const (
@@ -495,19 +498,19 @@ func (x *fbuild) litLeaf(texts []string, label string, pos token.Pos, via string
 		}
 		if len(lex) == 0 {
 			if tx != "" {
-				firsts = append(firsts, sepLex)
-				lasts = append(lasts, sepLex)
+				firsts = append(firsts, litSepLex)
+				lasts = append(lasts, litSepLex)
 			}
 			continue
 		}
 		allSpace = false
 		if lead {
-			firsts = append(firsts, sepLex)
+			firsts = append(firsts, litSepLex)
 		} else {
 			firsts = append(firsts, x.fm.withVia(lex[0], via))
 		}
 		if trail {
-			lasts = append(lasts, sepLex)
+			lasts = append(lasts, litSepLex)
 		} else {
 			lasts = append(lasts, x.fm.withVia(lex[len(lex)-1], via))
 		}
